@@ -635,8 +635,8 @@ def falsifier_stage(ctx):
         det.append(gen_det_case(ctx.rng, kinds[i % 6], [2, 3, 2, 2, 3, 4][i % 6] if ctx.thorough() else [2, 3, 2][i % 3],
                                 jump=(i % 4 != 0)))
     if ctx.thorough():
-        plan = [("relaxation", 2, 3000), ("dephasing", 2, 3000), ("depolarizing", 2, 3000), ("effective", 2, 3000),
-                ("leakage", 2, 3000), ("mixed", 2, 600), ("mixed", 3, 300), ("leakage", 3, 300), ("relaxation", 4, 300),
+        plan = [("relaxation", 2, 2500), ("dephasing", 2, 2500), ("depolarizing", 2, 2500), ("effective", 2, 2500),
+                ("leakage", 2, 2500), ("mixed", 2, 600), ("mixed", 3, 300), ("leakage", 3, 300), ("relaxation", 4, 300),
                 ("effective", 3, 300)]
     else:
         plan = [("mixed", 2, 800), ("leakage", 2, 800), ("effective", 3, 120)]
